@@ -2,12 +2,19 @@
 C16 — CS101 end-to-end delivery between master and slave while the link is up.
 
 Decided in Lean: the queue discipline (every operation sequence): capacity, first-in
-first-out, oldest displaced first.  The exactly-once / FIFO delivery over a lossy line
-rests on the C15 transition lemmas (Iec.Props.C15) for the link layer; the composed system
-(master, 1..3 slaves, lossy line) has no theorem of its own and is explored on the real
-stacks by harness/e2e101.c — C16 is claimed as partial (DESIGN.md).
+first-out, oldest displaced first; and, for the direction master → slave in unbalanced mode, the composed
+system (section "over the line"): the master's connection state machine (`SlaveConn.run`/`handle`), the FT 1.2
+encoder, the slave's transceiver, header parser and secondary state machine (`SecU.run`) put together
+(`Lemmas/E2E101.lean`): any number of transfers, each with any pattern of retransmissions, lost frames, lost
+acknowledgements and duplicates short of the repeat timeout, deliver every ASDU to the slave application exactly
+once and in order (`master_to_slave_exactly_once_in_order`), every retransmission being the identical frame
+(`retransmissions_identical`).  When the repeat timeout is reached the link is reported failed (C15
+`priU_gives_up`).  NOT composed in Lean (partial): the direction slave → master (class 1/2 polls; the slave side
+is C15 `secU_repetitions_invisible`), the parsing of the acknowledgement on the master, several slaves on one
+line, balanced mode; those are explored on the real stacks by harness/e2e101.c.
 -/
 import Iec.Model.Q101
+import Iec.Lemmas.E2E101
 namespace Iec.Props.C16
 open Iec.Q101
 
@@ -102,5 +109,42 @@ theorem fifo_through (n : Nat) (xs : List (List Nat)) (h : xs.length ≤ n) (k :
 /-! not vacuous -/
 example : ((Q.init 2).enqueue [1] |>.enqueue [2] |>.enqueue [3]).items = [[2], [3]] := by decide
 example : (((Q.init 2).enqueue [1] |>.enqueue [2]).dequeue).2 = some [1] := by decide
+
+/-! ### over the line: master → slave, unbalanced mode -/
+section Line
+open Iec.Link101
+
+/-- **every ASDU the master application sends reaches the slave application exactly once, first-in first-out**,
+for every list of transfers and, in each, every pattern of master runs (retransmissions), of copies reaching the
+slave (at least one; duplicates allowed) and whatever acknowledgement comes back, as long as the repeat timeout is not
+reached; and the two stations end synchronised, so the statement composes with whatever follows -/
+theorem master_to_slave_exactly_once_in_order (y : Sys) (ks : List Transfer) (hy : Sync y)
+    (hk : ∀ k ∈ ks, k.d ≠ [] ∧ 1 + y.lm.p.addrLen + k.d.length ≤ 255 ∧ ∀ t ∈ k.waits, ¬ t > k.t0 + y.lm.p.tRepeat) :
+    rxOf (y.transfers ks).2.1 = ks.map (·.d) ∧ Sync (y.transfers ks).1 :=
+  ⟨(transfers_spec ks y hy hk).2, (transfers_spec ks y hy hk).1⟩
+
+/-- **within a transfer every frame the master writes is the same frame** (the original and each retransmission),
+carrying the frame count bit the slave expects -/
+theorem retransmissions_identical (y : Sys) (k : Transfer) (hy : Sync y) (hk : k.Ok y) :
+    ∃ f, varFrame y.lm.p.addrLen (ctrl 3 true false y.s.expectedFcb true) y.c.address k.d = some f ∧
+      (∀ g ∈ (y.transfer k).2.2, g = f) ∧ f ∈ (y.transfer k).2.2 := by
+  obtain ⟨_, _, _, f, h1, h2, h3⟩ := transfer_spec y k hy hk
+  exact ⟨f, by rw [hy.bit]; exact h1, h2, h3⟩
+
+/-! not vacuous (tests): a synchronised pair, two transfers, the first with a retransmission and a duplicate -/
+def demoP : Params := ⟨1, 200, 1000, false, 500, by omega⟩
+def demoSys : Sys :=
+  { c := { address := 5, pstate := 3 }, lm := { p := demoP, address := 0 }, s := { ll := { p := demoP, address := 5 } } }
+def demoKs : List Transfer :=
+  [{ d := [1, 2, 3], t0 := 1000, waits := [1100, 1300], t := 1010, ts := [1310], tAck := 1320, acd := false },
+   { d := [4], t0 := 2000, waits := [], t := 2010, ts := [], tAck := 2020, acd := true }]
+example : Sync demoSys := ⟨rfl, rfl, rfl, rfl, rfl, rfl, Or.inr (Or.inl ⟨rfl, by decide⟩), ⟨by decide, by decide⟩⟩
+example : rxOf (demoSys.transfers demoKs).2.1 = [[1, 2, 3], [4]] := by decide
+/-- the master wrote the first frame twice (one retransmission), the second once -/
+example : (demoSys.transfers demoKs).2.2 =
+    [[0x68, 5, 5, 0x68, 0x73, 5, 1, 2, 3, 0x7e, 0x16], [0x68, 5, 5, 0x68, 0x73, 5, 1, 2, 3, 0x7e, 0x16],
+     [0x68, 3, 3, 0x68, 0x53, 5, 4, 0x5c, 0x16]] := by decide
+
+end Line
 
 end Iec.Props.C16
